@@ -217,6 +217,8 @@ def chanParseModes (s : St) (ci : Id) : Bool → Bytes → List Bytes → St
               | none => chanParseModes s ci op rest more   -- unreachable under the invariant (Go would nil-deref)
             | none => chanParseModes s ci op rest args
           | [] => chanParseModes s ci op rest args
+        else if c == 98 || c == 101 || c == 73 then   -- b e I: list modes, not tracked, but they take an argument
+          chanParseModes s ci op rest args.tail
         else chanParseModes s ci op rest args
 
 inductive Op
